@@ -71,6 +71,7 @@ type Exec struct {
 	ghostCells   map[*Cell]*Cell
 	wireUnit     *ssa.Function
 	kernelMode   bool
+	inlinedFns   []*ssa.Function
 	initCapture  map[*ssa.Global]*Term // set while a package initialiser is evaluated
 	flatWire     bool // byte-length mode: nested codecs are inlined instead of boxed
 	encCells     map[*Cell]bool // Encoder cells with a ghost stream
